@@ -25,6 +25,21 @@ def rnd_ctlv(rng, cls):
 
 def events(ctx):
     rng = ctx.rng
+    # two different names of equal length whose CRC-32 (and CRC of any width over that polynomial) coincide, in ONE TLV and in
+    # TLVs decoded one after the other: names are compared / remembered as names, never through a digest
+    from ..core import crc32_text_twin
+    for base in ("images/raw_0001.bin", "abcdefghijklmnop", "/data/xprizz/img_ehtf.raw"):
+        tw = crc32_text_twin(base)
+        if tw is None:
+            continue
+        b1, b2 = list(base.encode()), list(tw)
+        for act in (2, 3, 4):
+            for n1, n2 in ((b1, b2), (b2, b1)):
+                yield record("ctlv.rt", {"cls": "fsreq", "p": {"action": act, "n1": n1, "n2": n2}, "sfx": [], "via": "unpack"})
+                yield record("ctlv.rt", {"cls": "fsresp", "p": {"action": act, "status": 0, "n1": n1, "n2": n2, "msg": []}, "sfx": [],
+                                         "via": "from_tlv"})
+        for n1 in (b1, b2, b1):
+            yield record("ctlv.rt", {"cls": "fsreq", "p": {"action": 0, "n1": n1, "n2": []}, "sfx": [], "via": "holder"})
     from ..core import source_constants
     for c in source_constants():
         yield record("tlv.unpack", {"octets": list(c) + [6, 2, 1, 2]})
